@@ -1,6 +1,7 @@
 import VModel.Spec
 import VModel.Filters
 import VModel.PredictorSer
+import VModel.History
 import Driver.ModelParse
 /-! Line-protocol handler for sentence histories (`S op,op,…`).  See DESIGN.md §4.3. -/
 namespace V.Drv
@@ -69,40 +70,43 @@ def parseRules (rs : String) : Option TagRules :=
 def parseLabels (x : String) : Option (List B) :=
   if x = "-" then some [] else x.toList.mapM B.ofChar?
 
-/-- one op on the sentence; returns the new sentence and the response token; `none` = bad op -/
+/-- the operations that are calls on the sentence object, as `HOp`s (their semantics is `HOp.apply`) -/
+def parseHOp (op : String) : Option HOp :=
+  match op.splitOn ":" with
+  | ["raw", h] => (hexToStr? h).map .updateRaw
+  | ["tok", h] => (hexToStr? h).map .updateTokenized
+  | ["part", h] => (hexToStr? h).map .updatePartial
+  | ["pred", k] => k.toNat?.map .predict
+  | ["fill"] => some .fillTags
+  | ["reset", k] => k.toNat?.map .resetTags
+  | ["setb", i, b] => do
+    let i ← i.toNat?
+    let b ← (b.toList.head?).bind B.ofChar?
+    pure (.setBoundary i b)
+  | ["sett", i, h] => do
+    let i ← i.toNat?
+    let t ← if h = "~" then some none else (hexToStr? h).map some
+    pure (.setTag i t)
+  | ["filter", "ws", t] => t.toNat?.map .filterWs
+  | ["filter", "lb"] => some .filterLb
+  | ["filter", "gc", ls] => (if ls = "-" then some [] else (ls.splitOn ".").mapM String.toNat?).map .filterGc
+  | ["filter", "tag", rs] => (parseRules rs).map .filterTag
+  | _ => none
+
 def sentOp (preds : List Predictor) (models : List WModel) (s : Sentence) (op : String) : Option (Sentence × String) :=
-  let upd (r : Res (Sentence × Bool)) : Option (Sentence × String) :=
-    match r with
-    | .ok (s', true) => some (s', "ok")
-    | .ok (s', false) => some (s', "err")
-    | .err _ => some (s, "err?")
-    | .panic _ => some (s, "panic")
-    | .ub _ => some (s, "ub")
   let ctor (r : Res Sentence) : Option (Sentence × String) :=
     match r with
     | .ok s' => some (s', "ok")
     | .err _ => some (s, "err")
-    | .panic p => some (s, if p.startsWith "caller:" then "oob" else "panic")
+    | .panic _ => some (s, "panic")
     | .ub _ => some (s, "ub")
   match op.splitOn ":" with
   | ["obs"] => some (s, showObs s)
   | ["obs", sel] => some (s, showObsSel sel s)
   | ["new"] => some (Sentence.default, "ok")
-  | ["raw", h] => (hexToStr? h).bind fun t => upd (s.updateRaw t)
-  | ["tok", h] => (hexToStr? h).bind fun t => upd (s.updateTokenized t)
-  | ["part", h] => (hexToStr? h).bind fun t => upd (s.updatePartial t)
   | ["Fraw", h] => (hexToStr? h).bind fun t => ctor (Sentence.fromRaw t)
   | ["Ftok", h] => (hexToStr? h).bind fun t => ctor (Sentence.fromTokenized t)
   | ["Fpart", h] => (hexToStr? h).bind fun t => ctor (Sentence.fromPartial t)
-  | ["pred", k] => do
-    let k ← k.toNat?
-    let p ← preds[k]?
-    ctor (p.predict k s)
-  | ["fill"] =>
-    -- fill_tags() after predict() with a predictor built with predict_tags = false is a documented panic
-    match s.pred.bind (fun k => preds[k]?) with
-    | some p => if p.tagPredictor.isNone then some (s, "nofill") else ctor (s.fillTags (fun k => preds[k]?))
-    | none => ctor (s.fillTags (fun k => preds[k]?))
   | ["spec", k] => do
     let k ← k.toNat?
     let m ← models[k]?
@@ -116,24 +120,34 @@ def sentOp (preds : List Predictor) (models : List WModel) (s : Sentence) (op : 
         | none => []
       s!"{en}={joinWith "+" ((specTokenTags m s.text st en).map showTag)}={joinWith ":" (scores.map toString)}"
     some (s, "X" ++ joinWith "." items)
-  | ["filter", "ws", t] => t.toNat?.bind fun t => ctor (filterWsConst t s)
-  | ["filter", "lb"] => ctor (filterLinebreaks s)
-  | ["filter", "gc", ls] =>
-    (if ls = "-" then some [] else (ls.splitOn ".").mapM String.toNat?).bind fun ls => ctor (filterGraphemes ls s)
-  | ["filter", "tag", rs] => (parseRules rs).bind fun rules => ctor (filterTagger rules s)
-  | ["reset", k] => k.toNat?.map fun k => (s.resetTags k, "ok")
   | ["setbs", ls] =>
     (parseLabels ls).bind fun bs =>
       if bs.length = s.bounds.length then some ({ s with bounds := bs }, "ok") else some (s, "badlen")
-  | ["setb", i, b] => do
-    let i ← i.toNat?
-    let b ← (b.toList.head?).bind B.ofChar?
-    ctor (s.setBoundary i b)
-  | ["sett", i, h] => do
-    let i ← i.toNat?
-    let t ← if h = "~" then some none else (hexToStr? h).map some
-    ctor (s.setTag i t)
-  | _ => none
+  | _ =>
+    match parseHOp op with
+    | none => none
+    | some hop =>
+      -- the harness does not issue calls that the documentation forbids or whose index is the caller's fault
+      match hop with
+      | .predict k => if preds[k]?.isNone then none else
+        (match hop.apply preds s with
+         | .ok (s', _) => some (s', "ok")
+         | .err _ => some (s, "err")
+         | .panic _ => some (s, "panic")
+         | .ub _ => some (s, "ub"))
+      | _ =>
+        let documented : Bool := match hop with
+          | .fillTags => (match s.pred.bind (fun k => preds[k]?) with
+              | some p => p.tagPredictor.isNone
+              | none => false)
+          | _ => false
+        if documented then some (s, "nofill") else
+        match hop.apply preds s with
+        | .ok (s', true) => some (s', "ok")
+        | .ok (s', false) => some (s', "err")
+        | .err _ => some (s, "err")
+        | .panic p => some (s, if p.startsWith "caller:" then "oob" else "panic")
+        | .ub _ => some (s, "ub")
 
 def runHist (preds : List Predictor) (models : List WModel) (ops : String) : String :=
   let rec go (s : Sentence) : List String → List String
